@@ -373,8 +373,11 @@ def shrink(c):
         return
     v = parse_val("[" + f[1] + "]")
     start, ops = v[0], v[1]
+    # a shrunk clean history need not be clean any more (a value may be left beside a cleared flag), so the round-trip
+    # oracle of kind clean-history must not be applied to it: shrunk candidates are judged by real = model only
+    kind = c.kind + "-shrunk" if c.kind in ("clean-history", "build-canonical") else c.kind
     def emit(ops2):
-        return Case("scte.build %s %s" % (fmt_val(start), fmt_val(ops2)), kind=c.kind, decides=c.decides, theorem=c.theorem)
+        return Case("scte.build %s %s" % (fmt_val(start), fmt_val(ops2)), kind=kind, decides=c.decides, theorem=c.theorem)
     for i in range(len(ops)):
         yield emit(ops[:i] + ops[i + 1:])
     for i, o in enumerate(ops):
